@@ -5,7 +5,7 @@ import numpy as np
 
 import ser_common as sc
 from ser_common import Obj, Sub, Leaf, eq, obj_eq  # noqa: F401
-from vf.stubs.memfs import FS, Fault, _p
+from vf.stubs.memfs import FS, Fault, FaultInterrupt, _p
 
 FIXED: dict = {}
 
@@ -65,10 +65,12 @@ def _outside_untouched(snap, fs, target):
 
 
 def failed_save(k: int, store: int, overwrite: bool, pre: int, shape: int, bad: int, tag: int) -> bool:
-    """store 0 zip, 1 dir, 2 auto(.zip), 3 auto(dir); pre 0 none, 1 complete object of the same
-    store kind, 2 complete object of the other kind (file vs directory at the target path)
+    """store 0 zip, 1 dir, 2 auto(.zip), 3 auto(dir), 4 zip given a path without the .zip suffix (the target
+    is <path>.zip); pre 0 none, 1 complete object of the same store kind, 2 complete object of the other kind
+    (file vs directory at the target path). FIXED["interrupt"]: the injected failure is a KeyboardInterrupt.
+    For store 4 an unrelated directory object sits at the suffix-less path and must never be touched.
 
-    pre: 0 <= k <= 90 and 0 <= store <= 3 and 0 <= pre <= 2 and 0 <= shape <= 2 and 0 <= bad <= 7
+    pre: 0 <= k <= 90 and 0 <= store <= 4 and 0 <= pre <= 2 and 0 <= shape <= 2 and 0 <= bad <= 7
     pre: _fix("store", store) and _fix("overwrite", overwrite) and _fix("pre", pre) and _fix("shape", shape) and _fix("bad", bad)
     pre: k in FIXED.get("k_in", range(0, 91))
     post: __return__ == True
@@ -86,15 +88,19 @@ def failed_save__reach(k: int, store: int, overwrite: bool, pre: int, shape: int
 
 def _scenario(k, store, overwrite, pre, shape, bad, tag):
     fs = FS()
-    zipkind = store in (0, 2)
-    path = "/work/o.zip" if zipkind else "/work/o"
-    kw = dict(store=["zip", "dir", "auto", "auto"][store])
+    fs.interrupt = bool(FIXED.get("interrupt"))
+    zipkind = store in (0, 2, 4)
+    path = "/work/o.zip" if zipkind else "/work/o"            # the real target
+    arg = "/work/o" if store == 4 else path                     # what the caller passes
+    kw = dict(store=["zip", "dir", "auto", "auto", "zip"][store])
     with sc.patched(fs):
         fs.write(_p("/work/neighbour.txt"), "keep me")
         fs._mkparents(_p("/work/other"))
+        if store == 4:
+            make(3, 0, 0).save("/work/o", mode="w", store="dir")     # unrelated object at the suffix-less spelling
         tags = []
         if pre == 1:
-            make(7, shape, 0).save(path, mode="w", **kw)
+            make(7, shape, 0).save(path, mode="w", store="zip" if zipkind else "dir")
             tags.append(7)
         elif pre == 2:
             # a complete object of the *other* kind sits at the target path
@@ -110,10 +116,12 @@ def _scenario(k, store, overwrite, pre, shape, bad, tag):
         fs.k = k
         raised = None
         try:
-            make(tag, shape, bad).save(path, mode="o" if overwrite else "w", **kw)
+            make(tag, shape, bad).save(arg, mode="o" if overwrite else "w", **kw)
         except FileExistsError:
             fs.k = -1
             return (not overwrite) and pre != 0 and _same(snap, fs)      # write-once: nothing modified
+        except FaultInterrupt as e:
+            raised = e
         except Exception as e:      # injected fault or unserialisable attribute
             raised = e
         fs.k = -1
@@ -167,14 +175,18 @@ def _real_one(k, store, overwrite, pre, shape, bad, tag):
 
     d = tempfile.mkdtemp(prefix="vf_c08_")
     try:
-        zipkind = store in (0, 2)
+        zipkind = store in (0, 2, 4)
         path = os.path.join(d, "o.zip" if zipkind else "o")
-        kw = dict(store=["zip", "dir", "auto", "auto"][store])
+        arg = os.path.join(d, "o") if store == 4 else path
+        kw = dict(store=["zip", "dir", "auto", "auto", "zip"][store])
+        interrupt = bool(FIXED.get("interrupt"))
         with open(os.path.join(d, "neighbour.txt"), "w") as f:
             f.write("keep me")
+        if store == 4:
+            make(3, 0, 0).save(os.path.join(d, "o"), mode="w", store="dir")
         tags = []
         if pre == 1:
-            make(7, shape, 0).save(path, mode="w", **kw)
+            make(7, shape, 0).save(path, mode="w", store="zip" if zipkind else "dir")
             tags.append(7)
         elif pre == 2:
             if zipkind:
@@ -202,7 +214,7 @@ def _real_one(k, store, overwrite, pre, shape, bad, tag):
             def w(*a, **kws):
                 count["n"] += 1
                 if count["n"] == k:
-                    raise OSError("injected fault")
+                    raise (KeyboardInterrupt if interrupt else OSError)("injected fault")
                 return orig(*a, **kws)
             return w
         targets = [(zarr.core.attributes.Attributes, "__setitem__"), (zarr.Group, "create_array"),
@@ -214,12 +226,14 @@ def _real_one(k, store, overwrite, pre, shape, bad, tag):
         for p in patches:
             p.start()
         try:
-            make(tag, shape, bad).save(path, mode="o" if overwrite else "w", **kw)
+            make(tag, shape, bad).save(arg, mode="o" if overwrite else "w", **kw)
         except FileExistsError:
             for p in patches:
                 p.stop()
             patches = []
             return (not overwrite) and pre != 0 and listing() == before
+        except KeyboardInterrupt as e:
+            raised = e
         except Exception as e:
             raised = e
         finally:
